@@ -505,6 +505,14 @@ func init() {
 			for i := 0; i < raceSoaks(tier); i++ {
 				cs = append(cs, CaseSpec{Kind: "soak", P: map[string]int64{"n": int64(4 + i%2), "txs": 240, "pace_us": 30000}, S: map[string]string{"race": "1"}})
 			}
+			// crowds: bursts of 60 clients blocked in SubmitTx on one node at once
+			crowds := 2
+			if tier == "thorough" {
+				crowds = 16
+			}
+			for i := 0; i < crowds; i++ {
+				cs = append(cs, CaseSpec{Kind: "soak", P: map[string]int64{"n": int64(3 + i%2), "txs": 3000, "submitters": 60, "crowd": 1}})
+			}
 			return cs
 		},
 		Run: func(cs CaseSpec) *CaseResult {
